@@ -9,7 +9,7 @@ ID = "C15"
 RULE = ("Mode G: EVERY validated model of the plog families (explicit and generated ids, integer leaves, connective structures) x a fixed "
         "alphabet of objective dictionaries (empty, single, mixed signs, a sub-proposition id, an unknown id) and EVERY configurator of the "
         "C14 space x the priority alphabet, each x the environment answers of the solver callable {exact optimum by brute force, tagged "
-        "vector 10+j, None, raises} (non-default answers are the deviations) x include_virtual_variables x try_reduce_before (solve) / only_leafs (select). oracle: callable gets "
+        "vector 10+j, None, raises one of 10 exception shapes (with message, without arguments, several arguments)} (non-default answers are the deviations) x include_virtual_variables x try_reduce_before (solve) / only_leafs (select). oracle: callable gets "
         "the asserted polyhedron (equal to a separately built one) and one objective per request with entry j = weight of column j's id "
         "(solve) resp. shadow compression of [default_prio_vector; u] with u built by id (select); reported dictionaries map every column "
         "id to the value at that column minus generated helpers / non-leafs; exact answers are optimal over the brute-force feasible set "
@@ -217,17 +217,21 @@ def check_select(k, tier, acc):
     dpv = np.asarray(Pref.default_prio_vector)
     pts, feas = cfgspace.feasible_points(Pref)
     F = pts[feas]
-    for mode in ("exact", "tag", "none", "raise"):
+    for mode in ("exact", "tag", "none") + tuple(("raise", e_) for e_ in range(len(cfgspace.RAISES))):
+        exc_i = 0
+        if isinstance(mode, tuple):
+            mode, exc_i = mode
         for only_leafs in (False, True):
             clear_caches()
             cfg2, _ = bind(ast)
-            cap = cfgspace.Capture(mode)
-            cs = dict(case, mode=mode, only_leafs=only_leafs)
+            cap = cfgspace.Capture(mode, exc_i)
+            cs = dict(case, mode=mode, only_leafs=only_leafs, exc=exc_i)
             acc.n("traces")
             acc.n("transitions")
             acc.hist("environment_answer", mode)
             try:
-                res = list(cfg2.select(*[dict(p) for p in prios], solver=cap, only_leafs=only_leafs))
+                batch = prios if mode != "raise" else prios[exc_i:exc_i + 3]      # a failing solver: three dictionaries are enough
+                res = list(cfg2.select(*[dict(p) for p in batch], solver=cap, only_leafs=only_leafs))
                 raised = None
             except pnd.InfeasibleError as e:
                 raised = "InfeasibleError"
@@ -235,7 +239,8 @@ def check_select(k, tier, acc):
                 raised = repr(e)
             if mode == "raise":
                 if raised != "InfeasibleError":
-                    acc.violation(None, cs, {"what": "solver exception did not surface as InfeasibleError from select()", "got": raised})
+                    acc.violation(None, cs, {"what": "solver exception did not surface as InfeasibleError from select()", "got": raised,
+                                             "solver_raised": repr(cfgspace.RAISES[exc_i]())})
                 continue
             if raised:
                 acc.violation(None, cs, {"what": "select raised", "exc": raised})
